@@ -10,15 +10,24 @@
   `e`; its JSON image is read back by the reader as `e`'s own tree (C02 `read_of_written`:
   strings after `sanitize`, the identity on the ASCII texts involved here; numbers by their
   literal text); `importCell` of that value under the same (format, raw type) gives back the
-  original raw value with the original type.  Proved here for all ten integer types under
-  string, numeric, timestamp and binary, and for bool; the remaining pairings of the table
-  (floats under `Ext`, strings, times, json.Number) are judged by the oracle on every case.
+  original raw value with the original type.  Proved for every value of the type:
+    here            string / numeric / binary x the ten integer types; boolean(bool), string(bool)
+    Proofs/Pairings timestamp x integers and none; string / auto x string (valid UTF-8);
+                    numeric / auto / string x json.Number (valid literal); binary x []byte, none,
+                    string, json.Number, bool, floats (bit-exact), time.Time; datetime(time|none)
+                    and string(time) (same second, same offset); numeric / timestamp x time.Time
+                    (same instant, for every zone function); numeric / timestamp / binary x bool;
+                    auto x integers and bool; string / numeric x floats GIVEN strconv's answers
+  (`Pairings.text_f64`, `text_f32`: the shortest rendering and its correctly rounded parse are
+  strconv's, hypotheses there).  What remains judged by the oracle only: auto x floats / times,
+  string x floats without the strconv hypothesis, boolean(none) from non-bool JSON.
 -/
 import Model.Tables
 import Model.Value
 import Props.C11
 import Props.C12
 import Proofs.Base64
+import Proofs.Pairings
 
 namespace Jl.C13
 open Jl Jl.Value Cast
@@ -94,5 +103,46 @@ theorem bool_columns (ext : Ext) (b : Bool) :
   · simp only [importCell, importByFormat, importFrom, importFail_ok _ _ h2]
   · simp only [exportVal, exportFail_ok _ _ h3]
   · simp only [importCell, importByFormat, importFrom, importFail_ok _ _ h4]
+
+/-! ### Headline statements on the property's own terms (`Tables.inDomain`, `Tables.sameValue`) -/
+
+/-- Date-time and string columns holding a time: for every time of the domain the text written is read
+    back as the same one-second instant (and offset) — whatever the process zone. -/
+theorem time_text_columns (ext : Ext) (t : GoTime) (f : Format) (ty : Ty)
+    (hf : (f = .datetime ∧ (ty = .time ∨ ty = .none)) ∨ (f = .string ∧ ty = .time))
+    (hd : Tables.inDomain f ty (.time t) = true) :
+    ∃ e v', exportVal ⟨genTables, ext⟩ (.cell (.time t) f ty) = .ok (.str e) ∧
+      importCell ⟨genTables, ext⟩ f ty (.str e) = .ok (.cell v' f ty, none) ∧
+      Tables.sameValue (.time t) v' = true ∧ Tables.lossless f ty = true :=
+  Pairings.datetime_time_sameValue ext t f ty hf hd
+
+/-- Numeric and timestamp columns holding a time: the Unix second written is read back as the same
+    instant, for every zone function that answers at that second. -/
+theorem time_number_columns (ext : Ext) (t : GoTime) (off : Int) (hz : ext.zoneOffset t.sec = some off)
+    (f : Format) (hf : f = .numeric ∨ f = .timestamp)
+    (hd : Tables.inDomain f .time (.time t) = true) :
+    ∃ e v', exportVal ⟨genTables, ext⟩ (.cell (.time t) f .time) = .ok e ∧
+      (e = .num (IntText.formatInt t.sec) ∨ e = .int .i64 t.sec) ∧
+      importCell ⟨genTables, ext⟩ f .time (.num (IntText.formatInt t.sec)) = .ok (.cell v' f .time, none) ∧
+      Tables.sameValue (.time t) v' = true ∧ Tables.lossless f .time = true :=
+  Pairings.numeric_time_sameValue ext t off hz f hf hd
+
+/-- Timestamp columns of every integer type (values up to 2^63-1, as the table says: a larger
+    uint64 is rejected at export, `Pairings.toTimestamp_u64_too_big`). -/
+theorem timestamp_int (ext : Ext) (t : IntTy) (v : Int) (hv : t.inRange v) (hmax : v ≤ 9223372036854775807) :
+    exportVal ⟨genTables, ext⟩ (.cell (.int t v) .timestamp (.int t)) = .ok (.int .i64 v) ∧
+    importCell ⟨genTables, ext⟩ .timestamp (.int t) (.num (IntText.formatInt v)) =
+      .ok (.cell (.int t v) .timestamp (.int t), none) :=
+  Pairings.timestamp_int ext t v hv hmax
+
+/-- Binary columns: every byte string, under []byte, none and string. -/
+theorem binary_bytes (ext : Ext) (b : Bytes) :
+    (exportVal ⟨genTables, ext⟩ (.cell (.bytes b) .binary .bytes) = .ok (.str (Base64.encode b)) ∧
+     importCell ⟨genTables, ext⟩ .binary .bytes (.str (Base64.encode b)) =
+       .ok (.cell (.bytes b) .binary .bytes, none)) ∧
+    (exportVal ⟨genTables, ext⟩ (.cell (.bytes b) .binary .none) = .ok (.str (Base64.encode b)) ∧
+     importCell ⟨genTables, ext⟩ .binary .none (.str (Base64.encode b)) =
+       .ok (.cell (.bytes b) .binary .none, none)) :=
+  Pairings.binary_bytes ext b
 
 end Jl.C13
